@@ -16,7 +16,7 @@ vars == <<test, stack, aux, tmp, hits, events, outcome>>
 
 Crashes(k) ==
   {[stage |-> "-", when |-> "never", hit |-> 0, exc |-> "none"]}
-  \cup (IF k = "contingency" THEN {}     \* the outer contingency loop has no hook points of its own
+  \cup (IF k \in {"contingency", "estimate"} THEN {}     \* no hook points of their own
         ELSE {[stage |-> Stages(k)[n], when |-> "after", hit |-> 1, exc |-> x] : n \in 1..Len(Stages(k)), x \in {"injected", "lfnc"}})
   \cup {[stage |-> NaturalAt(k, nat), when |-> "during", hit |-> 1, exc |-> "none"] : nat \in {m \in {"no_slack", "not_converged"} : NaturalAt(k, m) # "-"}}
   \cup (IF k = "contingency"
